@@ -32,13 +32,20 @@ def parseAttr (j : Json) : Except String Attr := do
   else throw "attr"
 
 /-- fuel = nesting depth bound of the JSON document (exhaustion is an error, never a verdict) -/
+def parsePair (j : Json) : Except String (String × String) := do
+  let a ← j.getArr?
+  if h : a.size = 2 then return (← a[0].getStr?, ← a[1].getStr?) else throw "pair"
+
 def parseNode : Nat → Json → Except String Node
   | 0, _ => throw "fuel"
   | f + 1, j => do
     let kids ← (← getArr j "k").toList.mapM (parseNode f)
     let attrs ← (← getArr j "a").toList.mapM parseAttr
+    let xmlns ← match j.getObjVal? "ns" with
+      | .ok (.arr a) => a.toList.mapM parsePair
+      | _ => pure []
     return .mk (← getNat j "i") (← getNat j "d") (← getStr j "n") attrs
-      (← parseTy (← j.getObjVal? "t")) (← getStr j "x") kids
+      (← parseTy (← j.getObjVal? "t")) (← getStr j "x") xmlns kids
 
 def parseKind (s : String) : Except String Kind :=
   match s with
@@ -56,10 +63,6 @@ def parseCon (j : Json) : Except String Con := do
   return { id := ← getNat j "id", kind := ← parseKind (← getStr j "kind"), sel, fields, refer,
            bound := ← natList j "bound" }
 
-def parsePair (j : Json) : Except String (String × String) := do
-  let a ← j.getArr?
-  if h : a.size = 2 then return (← a[0].getStr?, ← a[1].getStr?) else throw "pair"
-
 def parseSchema (j : Json) : Except String Schema := do
   let cons ← (← getArr j "cons").toList.mapM parseCon
   let decls ← (← getArr j "decls").toList.mapM fun d => do
@@ -69,7 +72,10 @@ def parseSchema (j : Json) : Except String Schema := do
       return ((← a[0].getNat?), l)
     else throw "decl"
   let ns ← (← getArr j "ns").toList.mapM parsePair
-  return { cons, declCons := decls, ns }
+  let fscope := match j.getObjVal? "fscope" with
+    | .ok (.bool b) => b
+    | _ => false
+  return { cons, declCons := decls, ns, fscope }
 
 def nat (n : Nat) : Json := Json.num n
 def nats (l : List Nat) : Json := Json.arr (l.map nat).toArray
@@ -91,6 +97,7 @@ def handle (j : Json) : Except String Json := do
   let sch ← parseSchema (← j.getObjVal? "schema")
   let root ← parseNode 4096 (← j.getObjVal? "doc")
   if !lexOk sch root then throw "badlex"
+  if !root.sibOk then throw "ids"
   let st := runDoc sch root
   let o := specClauses sch root
   return Json.mkObj [
@@ -101,7 +108,11 @@ def handle (j : Json) : Except String Json := do
     ("flags", Json.mkObj [
       ("spread", Json.arr ((referSpread sch root).map fun (c, m) => Json.arr #[nat c, nat m]).toArray),
       ("conflict", conflict sch root),
-      ("strq", nats (strQName sch root))])]
+      ("strq", nats (strQName sch root)),
+      ("fieldns", nats (fieldNs sch root))]),
+    -- the namespace map read at every collect (node id, sorted bindings that differ from the
+    -- declarations in scope of the node: empty on a correct stack discipline)
+    ("nsdiff", nats (((nsCollects sch.ns root).filter fun (i, m) => m != scopeAt sch.ns root i).map (·.1)))]
 
 end XsVerif.Driver.C08
 
